@@ -20,20 +20,24 @@ const char *StrToLower(const char *w) { int i = 0; while (i < 15 && w[i]) { lowe
 int g_is_kw;
 int is_python_keyword(char *w) { (void)w; return g_is_kw; }
 
+#ifdef VERIF_TIER_THOROUGH
+#define PN 8
+#else
 #define PN 6
+#endif
 /* C18 (narrow) + C06: the attribute-name helpers read only the attribute's name and produce a terminated string:
  * the name in lower case without blanks and newlines, '.' as '_' (a leading SELF\ dropped), '_' appended to a Python keyword */
 void h_attribute_names(void)
 {
     IN_ARR(char, in_name, PN + 1);
     IN(int, in_kw);
-    static struct Variable_ v; static struct Expression_ nm; static char out[BUFSIZ + 1], out2[BUFSIZ + 1];
+    static struct Variable_ v; static struct Expression_ nm; static char out[PN + 2], out2[BUFSIZ + 1];   /* frame: generate_attribute_name writes at most strlen(name) + 2 bytes of the caller's buffer; generate_dict_attr_name strncpy()s BUFSIZ bytes */
     in_name[PN] = 0;
     /* the name is given in its own exactly-sized allocation so that any read beyond its terminator is an obligation failure */
     int n = (int)strlen(in_name);
     char *name = malloc(n + 1);
     for (int i = 0; i <= PN; i++) if (i <= n) name[i] = in_name[i];
-    __CPROVER_assume(!(n >= 5 && (in_name[0] == 's' || in_name[0] == 'S') && in_name[4] == '\\'));   /* SELF\ prefix: own case below */
+    __CPROVER_assume(!(PN >= 5 && n >= 5 && (in_name[0] == 's' || in_name[0] == 'S') && in_name[PN >= 5 ? 4 : 0] == '\\'));   /* SELF\ prefix: own case below */
     v.name = &nm; nm.symbol.name = name;
     g_is_kw = in_kw != 0;
     char *r = generate_attribute_name(&v, out);
